@@ -44,7 +44,7 @@ theorem base_agreeM (F : Nat) (ih : ∀ F', F' < F → LoopOKM F') (tb : Ty) (o 
     (hnm : isMap tb = false) (ho : optOK tb o = true) (hfl : fl.zigzag = o.zigzag) (hp : Pay w p)
     (hne : neOne F tb w = true) (h : decodeOne F tb o w cur = some v) :
     wireNum w = (codecFor tb o).wire.num ∧ (isStructTy tb = true → (codecFor tb o).wire = .varlen) ∧
-      ∃ data, DataFor (isStructTy tb) p data ∧ ∃ f, decode f (codecFor tb o) data cur fl = .ok (v, data.length) := by
+      ∃ data, DataFor (isStructTy tb) p data ∧ ∃ f, decodeU f (codecFor tb o) data cur fl = .ok (v, data.length) := by
   by_cases hs : isStructTy tb = true
   · cases tb <;> simp only [isStructTy] at hs <;> try (exact absurd hs (by decide))
     rename_i fs'
@@ -93,7 +93,7 @@ theorem field_agreeM (F : Nat) (ih : ∀ F', F' < F → LoopOKM F') (t : Ty) (o 
     (h : decodeOne F (deref t) o w (unwrapPtr t cur) = some v) :
     wireNum w = (codecFor t o).wire.num ∧ (isEmb t = true → (codecFor t o).wire = .varlen) ∧
       ∃ data, DataFor (isEmb t) p data ∧
-        ∃ f, decode f (codecFor t o) data cur fl = .ok (wrapPtr t v, data.length) := by
+        ∃ f, decodeU f (codecFor t o) data cur fl = .ok (wrapPtr t v, data.length) := by
   by_cases hptr : isPtr t = true
   · cases t <;> simp only [isPtr] at hptr <;> try (exact absurd hptr (by decide))
     rename_i t'
@@ -129,7 +129,7 @@ theorem slice_agreeM (F : Nat) (ih : ∀ F', F' < F → LoopOKM F') (e : Ty) (o 
     (hp : Pay w p) (hne : neOne F e w = true) (h : decodeOne F e o w (Spec.Protobuf.zeroOf e) = some x) :
     wireNum w = (codecOf e).wire.num ∧ (isStructTy e = true → (codecOf e).wire = .varlen) ∧
       ∃ data, DataFor (isStructTy e) p data ∧
-        ∃ f, decode f (.slice (codecOf e) num (codecOf e).wire (isStructTy e)) data cur fl
+        ∃ f, decodeU f (.slice (codecOf e) num (codecOf e).wire (isStructTy e)) data cur fl
           = .ok (.list (Vals.ofList ((match cur with | .list l => l.toList | _ => []) ++ [x])), data.length) := by
   simp only [tyOKM, elemTy, Bool.and_eq_true, Bool.not_eq_true'] at ht
   simp only [optOK, Bool.and_eq_true, Bool.not_eq_true'] at ho
@@ -142,7 +142,7 @@ theorem slice_agreeM (F : Nat) (ih : ∀ F', F' < F → LoopOKM F') (e : Ty) (o 
     (by simp only [ho.1]) hp hne h
   rw [hc] at hw hv hf
   refine ⟨hw, hv, data, hdat, f + 1, ?_⟩
-  simp only [decode, hf]
+  simp only [decodeU, hf]
   cases cur <;> simp only [Vals.toList, List.nil_append]
 
 /-- the current contents of a map slot -/
@@ -151,13 +151,13 @@ def mapCur (cur : Val) : Vals :=
   | .map kvs => kvs
   | _ => .nil
 
-/-- the `.map` arm of `decode` on a non-empty entry chunk -/
+/-- the `.map` arm of `decodeU` on a non-empty entry chunk -/
 theorem decode_map_arm (f num : Nat) (kc vc : Codec) (kEmb vEmb : Bool) (entry : Codec) (d : Bytes) (cur : Val)
     (fl : Flags) (k v : Val) (n : Nat) (hd : d.isEmpty = false)
-    (h : decode f entry d (zeroOfCodec entry) {} = .ok (.struct (.cons k (.cons v .nil)), n)) :
-    decode (f + 1) (.map num kc vc kEmb vEmb entry) d cur fl
+    (h : decodeU f entry d (zeroOfCodec entry) {} = .ok (.struct (.cons k (.cons v .nil)), n)) :
+    decodeU (f + 1) (.map num kc vc kEmb vEmb entry) d cur fl
       = .ok (.map (mapAssign (mapCur cur) k v valEqShow), n) := by
-  simp only [decode, hd, Bool.false_eq_true, if_false, h]
+  simp only [decodeU, hd, Bool.false_eq_true, if_false, h]
   cases cur <;> rfl
 
 /-- **one entry of a map field**: whatever NON-EMPTY entry body `eb` the reference decodes (from the zero entry) to
@@ -168,7 +168,7 @@ theorem map_agree (F : Nat) (ih : ∀ F', F' < F → LoopOKM F') (kt vt : Ty) (n
     (evs : Vals) (fl : Flags) (ht : tyOKM (.map kt vt) = true) (hnb : eb.isEmpty = false)
     (hne : neMsg F (entryF kt vt) eb = true)
     (h : decodeMsg F (entryF kt vt) eb (Spec.Protobuf.zeroFields (entryF kt vt)) = some evs) :
-    ∃ f, decode f (mapC num kt vt) eb cur fl
+    ∃ f, decodeU f (mapC num kt vt) eb cur fl
       = .ok (.map (mapPut (mapCur cur) (valsGet evs 0) (valsGet evs 1)), eb.length) := by
   cases F with
   | zero => simp [decodeMsg] at h
@@ -187,7 +187,7 @@ theorem map_agree (F : Nat) (ih : ∀ F', F' < F → LoopOKM F') (kt vt : Ty) (n
       have hlen : evs.length = 2 := by
         rw [decodeRecs_len F1 _ recs _ evs h]; rfl
       have hevs := vals_two evs hlen
-      have hent : decode (f + 1) (entryC kt vt) eb (zeroOfCodec (entryC kt vt)) {}
+      have hent : decodeU (f + 1) (entryC kt vt) eb (zeroOfCodec (entryC kt vt)) {}
           = .ok (.struct (.cons (valsGet evs 0) (.cons (valsGet evs 1) .nil)), eb.length) := by
         rw [zero_entry kt vt ht, ← fieldsOf_entryF kt vt ht, decode_struct_succ, hf, ← hevs]; rfl
       refine ⟨f + 2, ?_⟩
